@@ -20,7 +20,7 @@ const c11Rule = "seeded histories on a real single-node server with the __cursor
 	"restart on the same data dir}, each followed by sequential checks (fetch as-is, fetch after a cache purge, write->read), a second concurrent phase and a final check. " +
 	"Every op is stamped call/return from one monotonic clock, set values are unique; oracle = direct 'definitely overwritten' rule per fetch + porcupine register model per key " +
 	"(failed sets stay open to the end). non-trivial = the history completed, the cursors log had >=3 segments in one partition, compaction removed >=1 record and >=1 of " +
-	"{eviction reached 512 entries, pause, restart} happened; distinct = config signature + history seed"
+	"{eviction reached 512 entries, pause, restart} happened (auto-pause histories do not compact: the timer paused the partitions); distinct = config signature + history seed"
 
 func c11GenCfg(rng *kit.RNG, g int) c11Cfg {
 	cfg := c11Cfg{}
@@ -33,13 +33,29 @@ func c11GenCfg(rng *kit.RNG, g int) c11Cfg {
 	cfg.Hot = rng.Range(4, 8)
 	cfg.Warm = rng.Range(12, 30)
 	cfg.CleanMode = "forced"
-	if rng.Chance(3, 10) {
-		cfg.CleanMode = "ticker"
-		if rng.Bool() {
-			cfg.AutoPause = 300 * time.Millisecond
-		}
-	}
 	steps := []string{"compact", "evict", "pause", "restart"}
+	switch x := rng.Intn(10); {
+	case x < 3:
+		// The log's own cleaner ticker (which also rolls a full active
+		// segment).  Close() does not wait for a cleaner pass in progress, so
+		// these histories do not stop or pause the log (that schedule is the
+		// subject of the closerace unit).
+		cfg.CleanMode = "ticker"
+		steps = []string{"compact", "evict", "compact"}
+		if cfg.SegBytes < 1500 {
+			// every cleaner pass rewrites every segment; with hundreds of
+			// tiny segments the passes would run back to back
+			cfg.SegBytes = 1500
+		}
+	case x < 5:
+		// The auto-pause timer closes the log whenever the partition has been
+		// idle; a forced Clean() could not be kept apart from it, so these
+		// histories do not compact (pause on a compacted log is covered by
+		// the PauseStream histories, pause during a cleaner pass by the
+		// closerace unit).
+		cfg.AutoPause = 500 * time.Millisecond
+		steps = []string{"evict", "pause", "restart", "pause"}
+	}
 	for i := len(steps) - 1; i > 0; i-- {
 		j := rng.Intn(i + 1)
 		steps[i], steps[j] = steps[j], steps[i]
@@ -48,9 +64,12 @@ func c11GenCfg(rng *kit.RNG, g int) c11Cfg {
 	if kit.Thorough() {
 		keep = rng.Range(3, 4)
 	}
+	if keep > len(steps) {
+		keep = len(steps)
+	}
 	steps = steps[:keep]
 	// a compaction before the other steps is what makes them interesting
-	has := false
+	has := cfg.AutoPause > 0
 	for _, s := range steps {
 		if s == "compact" {
 			has = true
@@ -58,6 +77,17 @@ func c11GenCfg(rng *kit.RNG, g int) c11Cfg {
 	}
 	if !has {
 		steps = append([]string{"compact"}, steps[:len(steps)-1]...)
+	}
+	if cfg.AutoPause > 0 {
+		has = false
+		for _, s := range steps {
+			if s == "pause" {
+				has = true
+			}
+		}
+		if !has {
+			steps[len(steps)-1] = "pause"
+		}
 	}
 	cfg.Steps = steps
 	return cfg
@@ -71,7 +101,7 @@ func c11NewSingle(rep *kit.Report, unit string, seed uint64, cfg c11Cfg) (*c11En
 		c.CursorsStream.AutoPauseTime = cfg.AutoPause
 		c.Streams.SegmentMaxBytes = cfg.SegBytes
 		if cfg.CleanMode == "ticker" {
-			c.Streams.CleanerInterval = 40 * time.Millisecond
+			c.Streams.CleanerInterval = 250 * time.Millisecond
 		} else {
 			c.Streams.CleanerInterval = time.Hour
 		}
@@ -135,7 +165,7 @@ func c11RunSingle(rep *kit.Report, unit string, g int, seed uint64) {
 	}
 	if alive() {
 		e.concurrent(n, rng, "concurrent-2", hot, warm)
-		if srv := n.Server(); srv != nil {
+		if srv := n.Server(); srv != nil && cfg.AutoPause == 0 {
 			e.compactQuiescent(srv)
 		}
 		e.checkpoint(n, rng, "final", hot, warm)
@@ -171,7 +201,12 @@ func c11RunSingle(rep *kit.Report, unit string, g int, seed uint64) {
 	} else {
 		rep.Count("histories_cache_on", 1)
 	}
-	if complete && removed > 0 && segs >= int64(3*cfg.Parts) && events > 0 {
+	if cfg.AutoPause > 0 {
+		// no compaction in these histories: non-trivial = the timer paused the partitions at least once
+		if complete && e.pauses > 0 {
+			rep.Nontrivial(fmt.Sprintf("%s/%d", cfg.sig(), seed))
+		}
+	} else if complete && removed > 0 && segs >= int64(3*cfg.Parts) && events > 0 {
 		rep.Nontrivial(fmt.Sprintf("%s/%d", cfg.sig(), seed))
 	}
 	rep.Sample(map[string]any{"history_seed": seed, "config": cfg.sig(), "steps": steps, "ops": nops})
